@@ -362,6 +362,63 @@ class _PointMod:
             return _wrap_point(self.__dict__["_n"] + "." + k, v)
         return v
 
+_SQL_MUTATING = ("INSERT", "DELETE", "UPDATE", "REPLACE", "END", "COMMIT", "BEGIN", "DROP")
+
+class _SqlCursor:
+    """Cursor proxy: every mutating statement is a kill point (before it runs) and, with
+    cfg["sql_kill"] = {"file": name, "nth": k, "when": "before"|"after"}, the process dies at the
+    k-th mutating statement on that database (a kill inside an open transaction)."""
+    def __init__(self, cur, dbname):
+        self.__dict__["_c"] = cur
+        self.__dict__["_db"] = dbname
+    def __getattr__(self, k):
+        return getattr(self.__dict__["_c"], k)
+    def __iter__(self):
+        return iter(self.__dict__["_c"])
+    def _stmt(self, sql, run):
+        word = sql.lstrip().split(None, 1)[0].upper() if sql.strip() else ""
+        if word not in _SQL_MUTATING:
+            return run()
+        db = self.__dict__["_db"]
+        sk = SIM.cfg.get("sql_kill")
+        hit = False
+        if sk and sk.get("file") == db:
+            SIM.nsql = getattr(SIM, "nsql", 0) + 1
+            hit = SIM.nsql == sk.get("nth")
+        if hit and sk.get("when", "after") == "before":
+            SIM.log("KILL", SIM.npoint, "sql-before:%s:%s" % (db, word)); SIM.logf.flush(); os._exit(137)
+        if SIM.cfg.get("sql_points"):
+            SIM.point("sql:%s:%s" % (db, word))
+        r = run()
+        if hit:
+            SIM.log("KILL", SIM.npoint, "sql-after:%s:%s" % (db, word)); SIM.logf.flush(); os._exit(137)
+        return r
+    def execute(self, sql, *a):
+        c = self.__dict__["_c"]
+        return self._stmt(sql, lambda: c.execute(sql, *a))
+    def executemany(self, sql, *a):
+        c = self.__dict__["_c"]
+        return self._stmt(sql, lambda: c.executemany(sql, *a))
+
+class _SqlConn:
+    def __init__(self, con, dbname):
+        self.__dict__["_c"] = con
+        self.__dict__["_db"] = dbname
+    def __getattr__(self, k):
+        return getattr(self.__dict__["_c"], k)
+    def cursor(self, *a, **kw):
+        return _SqlCursor(self.__dict__["_c"].cursor(*a, **kw), self.__dict__["_db"])
+    def execute(self, sql, *a):
+        return self.cursor().execute(sql, *a)
+
+class _SqlMod:
+    def __init__(self, real):
+        self.__dict__["_r"] = real
+    def __getattr__(self, k):
+        return getattr(self.__dict__["_r"], k)
+    def connect(self, path, *a, **kw):
+        return _SqlConn(self.__dict__["_r"].connect(path, *a, **kw), os.path.basename(str(path)))
+
 def install(cfg, logpath):
     """Rebind the seams (inside the forked child)."""
     global SIM
@@ -395,6 +452,12 @@ def install(cfg, logpath):
     bob.builder.hashDirectory = _wrap_point("builder.hashDirectory", bob.utils.hashDirectory)
     bob.invoker.emptyDirectory = _wrap_point("invoker.emptyDirectory", bob.utils.emptyDirectory)
     bob.utils.replacePath = _wrap_point("utils.replacePath", rp)
+    if cfg.get("sql_points") or cfg.get("sql_kill"):
+        # statements inside sqlite transactions (develop directory map, graph caches)
+        import sqlite3, bob.cmds.build.state, bob.input, bob.pathspec
+        for m in (bob.cmds.build.state, bob.input, bob.pathspec):
+            if getattr(m, "sqlite3", None) is sqlite3:
+                m.sqlite3 = _SqlMod(sqlite3)
     hook = cfg.get("pre_hook")
     if hook:
         import importlib
